@@ -261,7 +261,7 @@ Print Assumptions C01_calls_and_variables_by_name.
    term), argument lists (last argument first) and statement lists, against
    any table of already emitted functions, together with: every cell that
    exists stays a cell *)
-Theorem C01_calls_and_variables_statement_lists : forall P n, QE P n /\ QA P n /\ QB P n.
+Theorem C01_calls_and_variables_statement_lists : forall P n, QE P n /\ QA P n /\ QL P n /\ QB P n.
 Proof. exact sall_correct. Qed.
 Print Assumptions C01_calls_and_variables_statement_lists.
 
